@@ -342,6 +342,13 @@ func newEventFromUntrustedJSONV1(eventJSON []byte, roomVersion IRoomVersion) (PD
 
 	res.eventJSON = eventJSON
 
+	// The event ID, signing and redaction all work on the redacted form of the
+	// event: an event that cannot be redacted (e.g. its content is not an object)
+	// is not an event.
+	if _, err = roomVersion.RedactEventJSON(eventJSON); err != nil {
+		return nil, err
+	}
+
 	if err = checkEventContentHash(eventJSON); err != nil {
 		res.redacted = true
 
